@@ -42,6 +42,9 @@ type Op struct {
 	Edit   Edit   `json:"edit"`
 	QNS    int    `json:"qns"` // qualifier values used for predicate checks: 0 matching, 1 other
 	QTyp   int    `json:"qtyp"`
+	// ObjOwner (create): the object handed to Create already carries this owner in its metadata (0 = none; an object
+	// obtained from an earlier Get, say). An owner that differs from the requested one is refused, state untouched.
+	ObjOwner int `json:"objowner,omitempty"`
 }
 
 // Plan is a sequential plan.
@@ -84,16 +87,17 @@ func genEdit(t *rapid.T) Edit {
 
 func genOp(t *rapid.T) Op {
 	return Op{
-		K:      rapid.SampledFrom([]string{"create", "create", "update", "update", "update", "update", "destroy", "destroy", "get", "list"}).Draw(t, "k"),
-		Key:    rapid.SampledFrom([]int{0, 0, 0, 0, 1, 1, 1, 2, 3, 4, 5, 6, 7}).Draw(t, "key"),
-		Owner:  rapid.SampledFrom([]int{0, 1, 2, 3, 3, 3}).Draw(t, "owner"),
-		Phase:  rapid.SampledFrom([]int{0, 0, 1, 2, 3}).Draw(t, "phase"),
-		Src:    rapid.IntRange(0, 5).Draw(t, "src"),
-		Ver:    rapid.SampledFrom([]int{0, 0, 0, 0, 1, 2, 3}).Draw(t, "ver"),
-		VerNum: rapid.IntRange(0, 4).Draw(t, "vernum"),
-		Edit:   genEdit(t),
-		QNS:    rapid.IntRange(0, 1).Draw(t, "qns"),
-		QTyp:   rapid.IntRange(0, 1).Draw(t, "qtyp"),
+		K:        rapid.SampledFrom([]string{"create", "create", "update", "update", "update", "update", "destroy", "destroy", "get", "list"}).Draw(t, "k"),
+		Key:      rapid.SampledFrom([]int{0, 0, 0, 0, 1, 1, 1, 2, 3, 4, 5, 6, 7}).Draw(t, "key"),
+		Owner:    rapid.SampledFrom([]int{0, 1, 2, 3, 3, 3}).Draw(t, "owner"),
+		Phase:    rapid.SampledFrom([]int{0, 0, 1, 2, 3}).Draw(t, "phase"),
+		Src:      rapid.IntRange(0, 5).Draw(t, "src"),
+		Ver:      rapid.SampledFrom([]int{0, 0, 0, 0, 1, 2, 3}).Draw(t, "ver"),
+		VerNum:   rapid.IntRange(0, 4).Draw(t, "vernum"),
+		Edit:     genEdit(t),
+		QNS:      rapid.IntRange(0, 1).Draw(t, "qns"),
+		QTyp:     rapid.IntRange(0, 1).Draw(t, "qtyp"),
+		ObjOwner: rapid.SampledFrom([]int{0, 0, 0, 0, 1, 2}).Draw(t, "objowner"),
 	}
 }
 
@@ -360,7 +364,17 @@ func RunS1On(st state.CoreState, multiNS bool, p Plan) (v hk.Verdict) {
 				r.Metadata().SetVersion(ver)
 			}
 
-			want = m.Create(model.FromResource(r), owners[op.Owner])
+			if op.ObjOwner > 0 {
+				_ = r.Metadata().SetOwner(owners[op.ObjOwner])
+			}
+
+			if op.ObjOwner > 0 && owners[op.ObjOwner] != owners[op.Owner] {
+				// the owner is set only once: the request contradicts the object
+				want = model.Other
+			} else {
+				want = m.Create(model.FromResource(r), owners[op.Owner])
+			}
+
 			gotErr = st.Create(ctx, r, state.WithCreateOwner(owners[op.Owner]))
 
 			if gotErr == nil && want == model.OK {
